@@ -156,7 +156,14 @@ impl Disk
                 // We can use physical addressing for either DOS if sector = 0
                 let buf = self.img.read_sector(VTOC_TRACK as usize, 0, 0)?;
                 self.maybe_vtoc = match VTOC::from_bytes(&buf) {
-                    Ok(vtoc) => Some(vtoc),
+                    Ok(vtoc) => {
+                        // a track-sector list sector has room for 122 pairs
+                        if vtoc.max_pairs<1 || vtoc.max_pairs>122 {
+                            log::error!("VTOC has invalid count of track-sector pairs {}",vtoc.max_pairs);
+                            return Err(Box::new(Error::Range));
+                        }
+                        Some(vtoc)
+                    },
                     Err(e) => return Err(Box::new(e))
                 };
                 Ok(())
